@@ -280,6 +280,14 @@ pub fn gen_cpp_header(r: &mut Rng) -> (String, Facts) {
         let _ = writeln!(g.out, "namespace {stem}_a {{\n  struct {stem}_BF {{ unsigned int lo : 3; int mid : 5; unsigned long long hi : 40; }};\n  union {stem}_BU {{ unsigned char raw; unsigned char bit : 1; }};\n}}\nnamespace {stem}_b {{\n  struct {stem}_Plain {{ int x; {stem}_a::{stem}_BF *p; }};\n  namespace inner {{ struct {stem}_Deep {{ char c[3]; }}; }}\n}}");
         g.facts.features.push("bitfield-then-plain-namespace");
     }
+    // helper types of the prelude that are needed only inside a namespace: a union that cannot be a Rust union (a
+    // member with a destructor -> `__BindgenUnionField` wrapper), an incomplete-array member (`__IncompleteArrayField`),
+    // an opaque-array blob (over-aligned padding)
+    if g.r.chance(1, 3) {
+        let stem = g.plain("nshelp");
+        let _ = writeln!(g.out, "namespace {stem}_n {{\n  struct {stem}_D {{ ~{stem}_D(); int x; }};\n  union {stem}_UW {{ {stem}_D d; int i; double f; }};\n  struct {stem}_Flex {{ int n; long tail[]; }};\n  struct {stem}_Holder {{ {stem}_UW u; char c; }};\n}}\nnamespace {stem}_m {{ struct {stem}_P {{ int y; }}; }}");
+        g.facts.features.push("helper-types-in-namespace");
+    }
     // two namespaces exporting variables, constants and functions under the same unqualified
     // names (distinct items that map to one Rust name once namespaces are not mangled in)
     if g.r.chance(1, 3) {
@@ -333,6 +341,15 @@ pub fn gen_options(r: &mut Rng, cpp: bool, facts: &Facts) -> OptSet {
     let edition = *r.pick(&["2018", "2021", "2024"]);
     f.push("--rust-edition".into()); f.push(edition.into());
     if edition == "2024" { f.push("--rust-target".into()); f.push("1.85".into()); }
+    // an allow-list (the output must still be self-contained) and code-generation subsets
+    if r.chance(1, 5) {
+        let cands: Vec<&String> = facts.idents.iter().filter(|i| (i.starts_with('S') || i.starts_with('C') || i.starts_with('U')) && i.len() > 1 && i.chars().skip(1).all(|c| c.is_ascii_digit())).collect();
+        if !cands.is_empty() {
+            f.push("--allowlist-type".into()); f.push((*r.pick(&cands)).clone());
+            if r.chance(1, 2) { f.push("--allowlist-type".into()); f.push((*r.pick(&cands)).clone()); }
+        }
+    }
+    match r.below(10) { 0 => f.push("--ignore-functions".into()), 1 => { f.push("--generate".into()); f.push("types,vars".into()); } 2 => f.push("--ignore-methods".into()), _ => {} }
     let mut blocklisted = vec![];
     if r.chance(1, 8) {
         if let Some(t) = facts.idents.iter().find(|i| i.starts_with('S') && i.chars().skip(1).all(|c| c.is_ascii_digit())) {
